@@ -20,7 +20,7 @@ pub const SPEC: FamilySpec = FamilySpec {
     fams: &[Fam::End, Fam::Panic],
     stall_is_violation: true,
     runs_quick: 6,
-    runs_thorough: 640,
+    runs_thorough: 12_800,
     rule: "fault enumeration: each base scenario (2-4 streams in progress incl. a blocked writer and a starved reader, datagrams, bind requests with delayed answers, accept/get_datagram/next_bind_request pending) is first executed fault-free to count the messages M the endpoint under test \
 receives and sends; then one execution per (cut index k in 0..=M) x {peer Close, receive EOF, receive error, invalid frame, keepalive expiry on a black-holed link with close completing / never completing} and per (send index k) x {send error with silent / failing source}. \
 Oracle (appendix A.3): no operation pending at quiescence, reads return PRF data then EOF and never an error, writes fail with BrokenPipe, mux calls return Closed / false, the task returns the prescribed result. Plus drop-flush runs: everything queued before drop(mux) is delivered in order before Close. \
@@ -95,6 +95,7 @@ fn base_scenario(seed: u64) -> Scenario {
         faults: [None, None],
         drop_first: 0,
         binds,
+        scripted_ids: [vec![], vec![]],
     }
 }
 
@@ -220,11 +221,15 @@ fn drop_flush_case(st: &mut Stats, seed: u64) {
     let n_streams = rng.range(1, 4) as usize;
     let ops: Vec<(usize, u8, usize)> = (0..rng.range(2, 14)).map(|_| (rng.below(n_streams as u64) as usize, rng.below(8) as u8, *rng.pick(&[0usize, 1, 5, 64, 900]))).collect();
     let caps = [*rng.pick(&[1usize, 2, 0]), 0];
+    // traffic from the peer that is on its way when the handle is dropped: datagrams and a stream request
+    let inbound_dgrams = if rng.chance(1, 2) { rng.range(1, 3) } else { 0 };
+    let inbound_connect = rng.chance(1, 4);
     let cfg2 = cfg.clone();
     let end = sim::run(&sh, move |sh| async move {
         let ([e0, e1], _net) = wl::connect(&sh, [&cfg2[0], &cfg2[1]], caps, [None, None], seed, true);
         // the peer application: accept streams and keep them (not reading much), keep the mux
         let m1 = e1.mux.clone();
+        let m1b = e1.mux.clone();
         let peer = sim::spawn(&sh, 2001, async move {
             let mut kept = Vec::new();
             while let Ok(s) = m1.accept_stream_channel().await {
@@ -242,6 +247,20 @@ fn drop_flush_case(st: &mut Stats, seed: u64) {
                 streams.push(Some(s));
             }
             sim::quiesce().await;
+            // queued at the peer now, transmitted while this task goes on without yielding
+            for k in 0..inbound_dgrams {
+                let d = Datagram { flow_id: 0xE000 + k as u32, target_host: "in".into(), target_port: k as u16, data: vec![7u8; 9].into() };
+                m1b.send_datagram(d).await.ok();
+            }
+            let late_open = if inbound_connect {
+                let m = m1b.clone();
+                Some(tokio::spawn(async move {
+                    let _ = tokio::time::timeout(std::time::Duration::from_millis(30), m.new_stream_channel(b"in.", 99)).await;
+                }))
+            } else {
+                None
+            };
+            drop(m1b);
             let mut expected: Vec<(u32, String)> = Vec::new();
             let mut offs = vec![0u64; n_streams];
             let mut credit_left: Vec<u32> = streams.iter().map(|s| s.as_ref().map_or(0, |s| s.verif_send_credit())).collect();
@@ -295,6 +314,9 @@ fn drop_flush_case(st: &mut Stats, seed: u64) {
             }
             sh2.api(0, 0, Api::MuxDrop);
             drop(mux);
+            if let Some(h) = late_open {
+                h.await.ok();
+            }
             // streams still held are dropped after the mux: nothing is demanded for them
             (expected, streams.into_iter().flatten().map(|s| s.verif_flow_id()).collect::<Vec<u32>>())
         });
@@ -312,6 +334,9 @@ fn drop_flush_case(st: &mut Stats, seed: u64) {
     match end {
         sim::RunEnd::Finished(Some((expected, _held))) => {
             st.target("drop_flush_runs", 1);
+            if inbound_dgrams > 0 || inbound_connect {
+                st.target("drop_flush_runs_with_inbound_traffic", 1);
+            }
             st.target("frames_queued_before_drop", expected.len() as u64);
             let drop_at = log.iter().position(|r| matches!(&r.ev, Ev::Api { ep: 0, op: Api::MuxDrop, .. })).unwrap_or(log.len());
             // what the peer endpoint was delivered, per flow, up to Close
@@ -490,7 +515,7 @@ pub fn run(p: &Params) -> (Stats, &'static str) {
         }
     }
     // full accept queue at the moment the connection fails
-    let n_aq = p.share(if p.tier_thorough { 100_000 } else { 2_000 });
+    let n_aq = p.share(if p.tier_thorough { 1_000_000 } else { 2_000 });
     for i in 0..n_aq {
         accept_queue_full_case(&mut st, mix(base_seed, 0xAF_0000 + i));
         if st.too_many_violations() {
@@ -498,7 +523,7 @@ pub fn run(p: &Params) -> (Stats, &'static str) {
         }
     }
     // local drop with healthy transport
-    let n_drop = p.share(if p.tier_thorough { 200_000 } else { 4_000 });
+    let n_drop = p.share(if p.tier_thorough { 2_000_000 } else { 4_000 });
     for i in 0..n_drop {
         drop_flush_case(&mut st, mix(base_seed, 0xD0_0000 + i));
         if st.too_many_violations() {
